@@ -83,6 +83,7 @@ class Profile:
         never=False,            # 'free' | False  (never-ending body; only meaningful if forever or timeout)
         lat=0,                  # 'free' | int     cancellation latency
         sd=0,                   # 'free' | int     shutdown handler duration
+        yield_jobs=None,        # None: pre/post apply to every job | tuple of job names they apply to
         pre=0, post=0,          # max number of zero-time yields before / after the sleep (choice)
         kind="vjob",            # 'vjob' | 'corojob' | 'free'
         window=None,            # 'free' | None | int      per scheduler
@@ -99,6 +100,8 @@ class Profile:
         ties=False,             # equal-deadline timers in any order
         task_hash="zero",       # 'zero' | 'free'
         horizon=3000,
+        construct="ctor",       # 'ctor': all jobs given to the constructor | 'add': first one, the others add()ed | 'free'
+        window_via="ctor",      # 'ctor' | 'attr' (jobs_window assigned after construction) | 'free'
         all_forever_ok=False,   # allow a non-empty scheduler that owns no non-forever job (known finding KF-1)
     )
 
@@ -375,12 +378,14 @@ def _draw(api, prof, run, top):
         p["never"] = _param(api, prof.never, "n_" + n, "bool")
         p["lat"] = _param(api, prof.lat, "lat_" + n, "int")
         p["sd"] = _param(api, prof.sd, "sd_" + n, "int")
-        p["pre"] = api.choice("pre_" + n, prof.pre + 1) if prof.pre else 0
-        p["post"] = api.choice("post_" + n, prof.post + 1) if prof.post else 0
+        ylds = prof.yield_jobs is None or node.name in prof.yield_jobs
+        p["pre"] = api.choice("pre_" + n, prof.pre + 1) if prof.pre and ylds else 0
+        p["post"] = api.choice("post_" + n, prof.post + 1) if prof.post and ylds else 0
         p["kind"] = (api.choice("k_" + n, 2) if prof.kind == "free"
                      else (1 if prof.kind == "corojob" else 0))
         node.sentinel = Sentinel(node.name)
-        node.exc = Boom(node.name)
+        # every other job raises an exception that has no message at all
+        node.exc = Boom(node.name) if int(node.name[1:]) % 2 else Boom()
         if run.tweak is not None:
             run.tweak(node)
 
@@ -430,6 +435,10 @@ def _draw(api, prof, run, top):
                     on = api.flag("e_%s_%s%s" % (a.name, b.name, t))
                 elif prof.edges == "chain":
                     on = node.children.index(b) == i + 1
+                elif prof.edges == "fanin":
+                    on = b is node.children[-1]
+                elif prof.edges == "fanin2":
+                    on = i < 2 and node.children.index(b) >= 2
                 else:
                     on = False
                 if on:
@@ -459,14 +468,23 @@ def _draw(api, prof, run, top):
                 c.obj.requires(r.obj)
         base = PureScheduler if p["pure"] else Scheduler
         cls = _sched_class(base, run)
-        kw = dict(jobs_window=p["window"], timeout=p["timeout"], shutdown_timeout=p["sdt"],
-                  verbose=p["verbose"])
+        n = node.name + t
+        via_attr = (prof.window_via == "attr" or (prof.window_via == "free" and api.flag("wattr_" + n))) \
+            and p["window"] is not None
+        by_add = (prof.construct == "add" or (prof.construct == "free" and api.flag("add_" + n))) and len(objs) > 1
+        kw = dict(jobs_window=None if via_attr else p["window"], timeout=p["timeout"],
+                  shutdown_timeout=p["sdt"], verbose=p["verbose"])
         if not p["pure"]:
             kw.update(critical=p["crit"], forever=p["forever"], label=node.name)
         obj = cls.__new__(cls)
         obj._vh = vh
         obj._node = node
-        obj.__init__(*objs, **kw)
+        obj.__init__(*(objs[:1] if by_add else objs), **kw)
+        if by_add:
+            obj.add(objs[1])
+            obj.update(objs[2:])
+        if via_attr:
+            obj.jobs_window = p["window"]
         node.obj = obj
         return obj
 
@@ -647,7 +665,7 @@ def flatten(run, api):
         c = Node(j.name, False, top)
         c.p = j.p
         c.sentinel = Sentinel(j.name)
-        c.exc = Boom(j.name)
+        c.exc = Boom(j.name) if int(j.name[1:]) % 2 else Boom()
         clones[j.name] = c
         top.children.append(c)
         flat.nodes[c.name] = c
@@ -677,3 +695,22 @@ def flatten(run, api):
     obj.__init__(*objs, **kw)
     top.obj = obj
     return flat
+
+
+def redraw_for_rerun(api, run, tag="b"):
+    """second run of the *same* objects: new durations / outcomes for the jobs, a new timeout for the top
+    scheduler (attributes are public).  Only meaningful for schedulers without requirement edges."""
+    prof = run.prof
+    for j in run.jobs():
+        n = j.name + tag
+        j.p["d"] = _param(api, prof.dur, "d_" + n, "int")
+        j.p["raises"] = _param(api, prof.raises, "x_" + n, "bool")
+    top = run.top
+    if prof.timeout in ("free", "always"):
+        if api.flag("hasT_" + top.name + tag):
+            top.p["timeout"] = api.int("T_" + top.name + tag, 0)
+        else:
+            top.p["timeout"] = None
+        top.obj.timeout = top.p["timeout"]
+    run.first_run_events = run.events
+    run.events = []
